@@ -402,6 +402,10 @@ def build_sram(cfg):
     b.add_component_signature()
     b.maps.append(dut.wb_bus.memory_map)
     b.port = ("wb_bus", "target")
+    # the interface of an initiator that addresses exactly the rows this memory has
+    rows = (cfg["size"] * cfg["g"]) // cfg["dw"]
+    b.port_params = {"addr_width": rows.bit_length() - 1, "data_width": cfg["dw"],
+                     "granularity": cfg["g"], "features": ()}
     return b
 
 
